@@ -6,6 +6,7 @@
 -/
 import Qfx.Lemmas.CodecRound
 import Qfx.Lemmas.CodecDictGroup
+import Qfx.Lemmas.CodecDictNested
 import Qfx.Lemmas.CodecGroupNested
 open Qfx Qfx.Spec
 
@@ -256,7 +257,52 @@ theorem C13_dict_flat_group_mid (d : Dicts) (mt : Bytes) (G d0 : Tag) (ts : List
   rw [e] at this
   exact this
 
-/-- the same with the group LAST in the body (CheckSum closes it — the position in which the unchanged code also left `10=` inside
+/-- WITH THE DICTIONARY, A GROUP THAT CONTAINS A NESTED GROUP (the D6 scenario, after the fix), whole parse: the message
+    `8, 9, 35, plain…, G=<n>, leaf members of G…, N=<k>, members of N…, z0, plain…, 10` — `G` a group of the message type, `N` a group
+    nested in it, `z0` a member of neither — parses into `Message.fields` = the wire fields, the body maps `G` to exactly the count
+    field, its members, the nested count and the nested members, and the field `z0` BEHIND the nested group is found in the body
+    (the unchanged code kept it inside the group: `C13_orig_swallows_behind_nested_group`). -/
+theorem C13_dict_nested_group_mid (d : Dicts) (mt : Bytes) (G N : Tag) (C CN : List DNode) (hg : NestedGroup d mt G N C CN)
+    (t8 t9 t35 g0 n0 z0 t10 : TagValue) (preA M1 MN postB : List TagValue)
+    (hw8 : IsWire t8) (hw9 : IsWire t9) (hw35 : IsWire t35) (hw10 : IsWire t10)
+    (h8 : t8.tag = 8) (h9 : t9.tag = 9) (h35 : t35.tag = 35) (h10 : t10.tag = 10) (hv : t35.value = mt)
+    (hpre : PlainFields d preA) (hg0 : IsWire g0) (hG : g0.tag = G)
+    (hGh : isHeaderField d G = false) (hGt : isTrailerField d G = false)
+    (hM1 : ∀ tv ∈ M1, IsWire tv ∧ isGroupMember tv.tag C = true ∧ pathWalk C [tv.tag] = none)
+    (hn0 : IsWire n0) (hN : n0.tag = N)
+    (hMN : ∀ tv ∈ MN, IsWire tv ∧ isGroupMember tv.tag CN = true)
+    (hz : PlainFields d (z0 :: postB)) (hzmN : isGroupMember z0.tag CN = false) (hzmC : isGroupMember z0.tag C = false)
+    (hzh : isHeaderField d z0.tag = false) (hzt : isTrailerField d z0.tag = false)
+    (hzG : ∀ tv ∈ z0 :: postB, tv.tag ≠ G)
+    (hng10 : NoGroupTag d 10) (hh10 : isHeaderField d 10 = false)
+    (hbl : atoi t9.value = .ok ((fieldsLength (t8 :: t9 :: t35 :: ((preA ++ g0 :: (M1 ++ n0 :: MN)) ++ (z0 :: postB ++ [t10]))) : Nat) : Int)) :
+    ∃ (m : Message) (f : Field),
+      parseMessage Fixes.cur d (wireOf (t8 :: t9 :: t35 :: ((preA ++ g0 :: (M1 ++ n0 :: MN)) ++ (z0 :: postB ++ [t10])))) = .ok m ∧
+      m.fields = t8 :: t9 :: t35 :: ((preA ++ g0 :: (M1 ++ n0 :: MN)) ++ (z0 :: postB ++ [t10])) ∧
+      alFind m.body.lookup G = some f ∧
+      f.items m.fields = g0 :: (M1 ++ n0 :: MN) ∧
+      ((∀ tv ∈ postB, tv.tag ≠ z0.tag) → m.body.getBytes m.fields z0.tag = .ok z0.value) := by
+  obtain ⟨m, hparse, hfields, hfind, hz0find⟩ := parse_dict_nested_mid hg t8 t9 t35 g0 n0 z0 t10 preA M1 MN postB
+    hw8 hw9 hw35 hw10 h8 h9 h35 h10 hv hpre hg0 hG hGh hGt hM1 hn0 hN hMN hz hzmN hzmC hzh hzt hzG hng10 hh10 hbl
+  refine ⟨m, _, hparse, hfields, hfind, ?_, ?_⟩
+  · rw [hfields]
+    have hL : t8 :: t9 :: t35 :: ((preA ++ g0 :: (M1 ++ n0 :: MN)) ++ (z0 :: postB ++ [t10])) =
+        (t8 :: t9 :: t35 :: preA) ++ ((g0 :: (M1 ++ n0 :: MN)) ++ (z0 :: postB ++ [t10])) := by simp
+    have e : 3 + preA.length = (t8 :: t9 :: t35 :: preA).length := by simp; omega
+    have e2 : 1 + (M1 ++ n0 :: MN).length = (g0 :: (M1 ++ n0 :: MN)).length := by simp; omega
+    simp only [Field.items]
+    rw [hL, e, List.drop_left, e2, List.take_left]
+  · intro hpz
+    apply getBytes_view _ _ _ _ z0 (hz0find hpz)
+    rw [hfields]
+    have hL' : t8 :: t9 :: t35 :: ((preA ++ g0 :: (M1 ++ n0 :: MN)) ++ (z0 :: postB ++ [t10])) =
+        (t8 :: t9 :: t35 :: (preA ++ g0 :: (M1 ++ n0 :: MN))) ++ z0 :: (postB ++ [t10]) := by simp
+    rw [hL', List.getElem?_append_right (by simp; omega)]
+    have : 3 + preA.length + 1 + (M1 ++ n0 :: MN).length - (t8 :: t9 :: t35 :: (preA ++ g0 :: (M1 ++ n0 :: MN))).length = 0 := by
+      simp; omega
+    rw [this]; rfl
+
+/-- as `C13_dict_flat_group_mid`, with the group LAST in the body (CheckSum closes it — the position in which the unchanged code also left `10=` inside
     `bodyBytes`, D7) -/
 theorem C13_dict_flat_group_last (d : Dicts) (mt : Bytes) (G d0 : Tag) (ts : List Tag) (C : List DNode)
     (hg : FlatGroup d mt G C) (hC : C.map DNode.tag = d0 :: ts)
@@ -477,6 +523,7 @@ example :
    "same fields and values in the same order"                 C13_roundtrip_flat (Write then Read, templates without nesting, any setter calls),
                                                              C13_read_inverts_wire_flat (whole Read, templates without nesting);
                                                              C13_read_member, C13_read_delimiter (one step each, any template); nested: C13_roundtrip_nodict_full
-   "fields following the group are still found"              C13_read_stops_at_follower; with dictionary: C13_fixed_behind_nested_group
+   with the dictionary, group containing a nested group (D6 scenario), whole parse   C13_dict_nested_group_mid
+   "fields following the group are still found"              C13_read_stops_at_follower; with dictionary: C13_dict_nested_group_mid, C13_fixed_behind_nested_group
                                                              (vs. C13_orig_swallows_behind_nested_group, D6), C13_pop_returns_shorter_stack, C13_dict_flat_group_mid
    monitor clauses: group_roundtrip{dict=api|n|a|ta,nested=y|n}, followers_found{dict=…} -/
